@@ -183,6 +183,16 @@ const TILING_FAMS: &[&str] = &["lattice", "circles", "combs", "starholes", "blob
 const POINT_FAMS: &[&str] = &["cloud", "rects", "starholes", "blobs", "mantissa", "circles"];
 const ANY: &[&str] = &["*"];
 
+/// configuration dimension `interleave`: operations that hand out a LAZY result (the planar sweep's
+/// iterator) consume it while another such computation is alive on the same thread
+static INTERLEAVE: std::sync::atomic::AtomicBool = std::sync::atomic::AtomicBool::new(false);
+pub fn set_interleave(on: bool) {
+    INTERLEAVE.store(on, std::sync::atomic::Ordering::SeqCst);
+}
+pub fn interleave_on() -> bool {
+    INTERLEAVE.load(std::sync::atomic::Ordering::SeqCst)
+}
+
 macro_rules! op {
     ($name:expr, $fams:expr, $valid:expr, $large:expr, $f:expr) => {
         OpDef { name: $name, families: $fams, needs_valid: $valid, large_ok: $large, f: $f }
@@ -315,7 +325,25 @@ pub static OPS: &[OpDef] = &[
     }),
     // ---- address users
     op!("sweep_intersections", &["segs", "rects", "blobs", "starholes"], false, false, |i, o| {
-        let v: Vec<(Line<f64>, Line<f64>, LineIntersection<f64>)> = Intersections::from_iter(i.lines.iter().copied()).collect();
+        let v: Vec<(Line<f64>, Line<f64>, LineIntersection<f64>)> = if interleave_on() {
+            // the lazy iterator is drained while ANOTHER sweep over other segments (a few axis-parallel
+            // ones: cannot run away) is alive on the same thread and is drained in lock-step
+            let mut it = Intersections::from_iter(i.lines.iter().copied());
+            let other: Vec<Line<f64>> = (0..6).map(|k| Line::new(Coord { x: k as f64, y: -50.0 }, Coord { x: if k % 2 == 0 { k as f64 } else { k as f64 + 3.0 }, y: if k % 2 == 0 { -40.0 } else { -50.0 } })).chain([Line::new(Coord { x: 0.0, y: -45.0 }, Coord { x: 9.0, y: -45.0 }), Line::new(Coord { x: 0.0, y: -45.0 }, Coord { x: 9.0, y: -45.0 })]).collect();
+            let mut it2 = Intersections::from_iter(other.iter().copied());
+            let mut v = vec![];
+            loop {
+                let a = it.next();
+                let _ = it2.next();
+                match a {
+                    Some(x) => v.push(x),
+                    None => break,
+                }
+            }
+            v
+        } else {
+            Intersections::from_iter(i.lines.iter().copied()).collect()
+        };
         o.len(v.len());
         for (a, b, x) in &v {
             w_line(o, a);
@@ -430,6 +458,20 @@ pub static OPS: &[OpDef] = &[
         w_dbg(o, &i.mls.validation_errors());
     }),
     // ---- distances and measures
+    op!("set_distances", &["cloud", "mantissa", "circles", "blobs"], false, false, |i, o| {
+        // Hausdorff / Frechet between two coordinate sets of the SAME large size (both sides above any
+        // plausible "go parallel" threshold): the points against a shifted, reversed copy, and as lines
+        let n = i.pts.0.len().min(1100);
+        let p1 = MultiPoint::new(i.pts.0[..n].to_vec());
+        let p2 = MultiPoint::new(i.pts.0[..n].iter().rev().map(|p| Point::new(p.x() * 0.75 + 0.37, p.y() + p.x() * 0.125 - 0.11)).collect());
+        o.f64(p1.hausdorff_distance(&p2));
+        o.f64(p2.hausdorff_distance(&p1));
+        let l1 = LineString::new(p1.0.iter().map(|p| p.0).collect());
+        o.f64(l1.hausdorff_distance(&first_ring(i)));
+        let m = n.min(300);
+        let l2 = LineString::new(p2.0[..m].iter().map(|p| p.0).collect());
+        o.f64(LineString::new(l1.0[..m].to_vec()).frechet_distance(&l2));
+    }),
     op!("distance", POLY_FAMS, false, false, |i, o| {
         let (p, q) = (first_poly(i), i.b.0.first().cloned().unwrap_or_else(|| first_poly(i)));
         o.f64(Euclidean.distance(&p, &q));
